@@ -43,8 +43,11 @@ Complete(c, o) ==
   /\ st' = (IF st[c] = "bg" THEN [st EXCEPT ![c] = "done"] ELSE st)
   /\ ev' = [e |-> "complete", c |-> c, i |-> gid[c], out |-> o, t |-> now, ns |-> 0, nd |-> (IF Cancel THEN 0 ELSE 1), ndr |-> 0]
   /\ UNCHANGED <<cfg, now, key, deadline, gid, ngate>>
+\* an inner result: a response or an error of either code (passed on unchanged); "panic" is not a result
+Have(c) == gout[c] \in {"ok", "e1", "e2"}
 ResultEv(c) ==
-  (IF gout[c] = "ok" THEN [res |-> "ok", val |-> gid[c], rq |-> c] ELSE [res |-> "err", kind |-> "inner1", val |-> gid[c]])
+  (IF gout[c] = "ok" THEN [res |-> "ok", val |-> gid[c], rq |-> c]
+   ELSE [res |-> "err", kind |-> (IF gout[c] = "e2" THEN "inner2" ELSE "inner1"), val |-> gid[c]])
   @@ [e |-> "poll", c |-> c, t |-> now, ns |-> 0, nd |-> (IF Cancel THEN 1 ELSE 0), ndr |-> 0]
 \* The property is silent on whether the inner call starts in Service::call or at the first poll (the deadline
 \* counts from the first poll either way): "created1" = inner call started, timer not armed yet.
@@ -62,7 +65,7 @@ CompleteEarly(c, o) ==
 FirstPollEager(c) ==
   /\ st[c] = "created1"
   /\ deadline' = [deadline EXCEPT ![c] = now + Tof(c)]
-  /\ LET have == gout[c] \in {"ok", "e1"} IN
+  /\ LET have == Have(c) IN
      IF Cancel
      THEN IF have THEN (st' = [st EXCEPT ![c] = "done"] /\ ev' = ResultEv(c))
           ELSE IF Tof(c) = 0 THEN (st' = [st EXCEPT ![c] = "done"] /\ ev' = TimeoutEv(c, 0, 1))
@@ -74,12 +77,19 @@ FirstPollEager(c) ==
 Lazy == "lazy" \in DOMAIN cfg /\ cfg.lazy = 1      \* runs in which the executor may poll late (cancel mode only)
 PollResolve(c) ==
   /\ st[c] = "running"
-  /\ \/ /\ gout[c] \in {"ok", "e1"} /\ (now <= deadline[c] \/ Lazy)   \* inner result available (by the deadline, if polled in time)
+  /\ \/ /\ Have(c) /\ (now <= deadline[c] \/ Lazy)   \* inner result available (by the deadline, if polled in time)
         /\ st' = [st EXCEPT ![c] = "done"] /\ ev' = ResultEv(c)
      \/ /\ (now = deadline[c] \/ (Lazy /\ now > deadline[c]))           \* not (or only just) finished at the deadline
-        /\ (Lazy => ~(gout[c] \in {"ok", "e1"} /\ doneAt[c] < deadline[c]))   \* finished before the deadline: never a timeout, however late the poll
+        /\ (Lazy => ~(Have(c) /\ doneAt[c] < deadline[c]))   \* finished before the deadline: never a timeout, however late the poll
         /\ IF Cancel THEN (st' = [st EXCEPT ![c] = "done"] /\ ev' = TimeoutEv(c, 0, 1))        \* inner call dropped here
            ELSE (st' = [st EXCEPT ![c] = IF gout[c] = "pending" THEN "bg" ELSE "done"] /\ ev' = TimeoutEv(c, 0, 0))
+  /\ UNCHANGED <<cfg, now, key, deadline, doneAt, gout, gid, ngate>>
+\* cancel mode: the inner call is polled inside the caller's own future, so its panic is the caller's (in-situ runs,
+\* where the environment of the time limiter is another layer; C06's own runs inject no panics)
+PollPanic(c) ==
+  /\ st[c] = "running" /\ gout[c] = "panic" /\ Cancel
+  /\ st' = [st EXCEPT ![c] = "done"]
+  /\ ev' = [e |-> "poll", c |-> c, t |-> now, res |-> "panic", ns |-> 0, nd |-> 1, ndr |-> 0]
   /\ UNCHANGED <<cfg, now, key, deadline, doneAt, gout, gid, ngate>>
 PollStutter(c) ==
   /\ st[c] = "running" /\ gout[c] = "pending" /\ now < deadline[c]
@@ -95,7 +105,7 @@ Advance(d) ==
   /\ d > 0 /\ (Lazy \/ (Quiescent /\ \A c \in Callers : st[c] = "running" => now + d <= deadline[c]))
   /\ now' = now + d /\ ev' = [e |-> "advance", d |-> d, t |-> now + d, ns |-> 0, nd |-> 0, ndr |-> 0]
   /\ UNCHANGED <<cfg, st, key, deadline, doneAt, gout, gid, ngate>>
-PollAny(c) == FirstPoll(c) \/ PollResolve(c) \/ PollStutter(c) \/ FirstPollEager(c)
+PollAny(c) == FirstPoll(c) \/ PollResolve(c) \/ PollStutter(c) \/ FirstPollEager(c) \/ PollPanic(c)
 Next ==
   \/ \E c \in Callers : (\E k \in Keys : Create(c, k)) \/ FirstPoll(c) \/ PollResolve(c) \/ Drop(c)
   \/ \E c \in Callers, o \in Outs : Complete(c, o)
